@@ -351,6 +351,23 @@ CLAIMED.update(
     }
 )
 
+CLAIMED.update(
+    {
+        "C16": (
+            "who-may-call on entropy sources, and a set-typed-expression analysis (annotations, displays, constructors, set algebra, dicts of sets, set-returning functions) that finds every construct making the iteration order of a hashed set observable, with order-insensitive consumers recognised and the remaining sites frozen in a per-site triage table",
+            "Decides absence of the static sources of run-to-run variation on the generation path: calls into the global random module, Random() construction, os.urandom, uuid, "
+            "secrets and numpy.random occur only in the seeded-RNG module and the enumerated seeding / isolation functions; pynguin's generator is seeded in "
+            "_setup_random_number_generator (called by _setup_and_check) and nowhere else; every construct that makes the iteration order of a hashed set observable (for, list / generator "
+            "/ dict comprehension, list(), tuple(), OrderedSet(), join(), pop(), next/iter/enumerate/zip, star-unpacking) over an expression typed as a set is order-insensitive by "
+            "construction (set-building loop bodies, sorted/len/any/all/min/max/sum consumers, set updates), or is one of 14 sites read individually and frozen with a reason; one site "
+            "(ML default dtype list, pinned by a test) is a known finding. LLM / refinement modules are off the path. Determinism of the SUT, of namespace dict orders and of thread "
+            "timing is not decided.",
+            "Set typing is syntactic (annotations and local inference), not a type checker: a set that reaches a consumer through an unannotated attribute or a third-party call is not seen.",
+            "DESIGN.md §3 C16",
+        ),
+    }
+)
+
 NOT_APPLICABLE: dict[str, str] = {
     "C06": "Correctness of the post-dominator/CDG construction on every code object is functional correctness of a graph "
     "algorithm; no shape of the code implies it and no sound static argument in reach bounds 'all code objects'.",
